@@ -246,12 +246,15 @@ class MediaList(cssutils.util._NewListBase):
                 # might be empty
                 self.deleteMedium(newmt)
                 self._seq.append(newMedium, 'MediaQuery')
+                self._wellformed = True
 
             else:
                 if 'all' == newmt:
                     self._clearSeq()
 
                 self._seq.append(newMedium, 'MediaQuery')
+                # e.g. a new MediaList() is not wellformed until it has content
+                self._wellformed = True
 
             self._seq._readonly = True
 
